@@ -829,7 +829,7 @@ async fn drive_inner(shared: Shared, sc: &Scenario, timed: &mut TimedOps) -> Pro
                 break;
             }
             timed.time_kills.remove(0);
-            if live && at + 1_000 > t {
+            if live && at + 1_000 > t && at > base {
                 w.request_kill("time", Some(op));
                 return ProcessEnd::Killed;
             }
@@ -839,7 +839,10 @@ async fn drive_inner(shared: Shared, sc: &Scenario, timed: &mut TimedOps) -> Pro
                 break;
             }
             timed.shutdowns.remove(0);
-            if live && at + 1_000 > t && !token.is_cancelled() {
+            // (`at > base`: an instant that passed while the process was down would otherwise fire in
+            // the first iteration of the new incarnation, racing with the helper thread of its startup
+            // file write)
+            if live && at + 1_000 > t && at > base && !token.is_cancelled() {
                 w.stats.fault("graceful_shutdown");
                 w.last_kill_op = Some(op);
                 w.ev(format!("t={t} SIGTERM"));
@@ -1236,7 +1239,7 @@ pub(crate) fn run(sc: &Scenario) -> Outcome {
         let r = run_once(sc, Some(when.clone()));
         trace.ev(&format!("enum k={k} hash={:x}", r.stats.log_hash));
         trace.abs(&format!("k{k}:{:x}", r.stats.run_sig));
-        if trace.keep && !r.violations.list.is_empty() {
+        if trace.keep && (!r.violations.list.is_empty() || sc.cfg.enum_only_k.is_some()) {
             trace.lines.extend(r.trace.lines.iter().map(|l| format!("  [k={k}] {l}")));
         }
         for v in r.violations.list {
